@@ -906,6 +906,9 @@ func unop(fr *frame, instr *ssa.UnOp, x value) value {
 			return -x
 		}
 	case token.MUL:
+		if r, ok := x.(symRef); ok {
+			return fr.i.selectElem(r.elems, r.idx, elemKind(r.elems))
+		}
 		px := x.(*value)
 		if px == nil {
 			panic(runtimeErrorText("invalid memory address or nil pointer dereference"))
@@ -1122,6 +1125,55 @@ func callBuiltin(caller *frame, callpos token.Pos, fn *ssa.Builtin, args []value
 
 	case "ssa:deferstack":
 		return &caller.defers
+
+	// package unsafe: element pointers are pointers into the []value backing array,
+	// so the host's unsafe.Slice reconstructs the sequence.
+	case "String":
+		n := int(asInt64(caller.i.concretizeInt(args[1], "unsafe.String length")))
+		p, _ := args[0].(*value)
+		if n == 0 || p == nil {
+			return ""
+		}
+		elems := unsafe.Slice(p, n)
+		return mkStr(elems)
+	case "Slice":
+		n := int(asInt64(caller.i.concretizeInt(args[1], "unsafe.Slice length")))
+		p, _ := args[0].(*value)
+		if p == nil {
+			return []value(nil)
+		}
+		return unsafe.Slice(p, n)
+	case "SliceData":
+		s := args[0].([]value)
+		if cap(s) == 0 {
+			return (*value)(nil)
+		}
+		return &s[:1][0]
+	case "StringData":
+		b := strBytes(args[0])
+		if len(b) == 0 {
+			return (*value)(nil)
+		}
+		cp := make([]value, len(b))
+		copy(cp, b)
+		return &cp[0]
+	case "clear":
+		switch x := args[0].(type) {
+		case []value:
+			for k := range x {
+				x[k] = zeroLike(x[k])
+			}
+		case map[value]value:
+			for k := range x {
+				delete(x, k)
+			}
+		case *hashmap:
+			if x != nil {
+				x.table = map[int]*entry{}
+				x.length = 0
+			}
+		}
+		return nil
 	}
 
 	panic("unknown built-in: " + fn.Name())
@@ -1529,4 +1581,49 @@ func fandbits[F floaty](x, y F) F {
 		*(*uint64)(unsafe.Pointer(&x)) &= *(*uint64)(unsafe.Pointer(&y))
 	}
 	return x
+}
+
+// zeroLike returns the zero value with the same dynamic shape as v.
+func zeroLike(v value) value {
+	switch v := v.(type) {
+	case bool:
+		return false
+	case string, sstr:
+		return ""
+	case sym:
+		if v.k == types.Bool {
+			return false
+		}
+		return fromBits(v.k, 0)
+	case structure:
+		r := make(structure, len(v))
+		for k := range v {
+			r[k] = zeroLike(v[k])
+		}
+		return r
+	case array:
+		r := make(array, len(v))
+		for k := range v {
+			r[k] = zeroLike(v[k])
+		}
+		return r
+	case *value:
+		return (*value)(nil)
+	case iface:
+		return iface{}
+	case []value:
+		return []value(nil)
+	case map[value]value:
+		return map[value]value(nil)
+	case *hashmap:
+		return (*hashmap)(nil)
+	case *vchan:
+		return (*vchan)(nil)
+	case *ssa.Function, *closure:
+		return (*ssa.Function)(nil)
+	}
+	if k := kindOfValue(v); k != types.Invalid {
+		return fromBits(k, 0)
+	}
+	return v
 }
